@@ -9,8 +9,10 @@ package c02adv
 import (
 	"bytes"
 	"context"
+	"encoding/json"
 	"fmt"
 	"os"
+	"path/filepath"
 	"reflect"
 	"sort"
 	"strings"
@@ -148,6 +150,18 @@ func reflectParams(m proto.Message) reflect.Value {
 	return v.FieldByName("Params")
 }
 
+// safeTemplate: templates do arithmetic on parameters the history itself may have pushed to extremes (coin amounts
+// near 2^256 ...); a panic there means "no valid message can be built", never a harness failure.
+func (w *world) safeTemplate(ti int, t advTx) (out []built) {
+	defer func() {
+		if r := recover(); r != nil {
+			w.v.Count("template_panic", 1)
+			out = nil
+		}
+	}()
+	return w.template(ti, t)
+}
+
 func safeVB(m sdk.Msg) (err error) {
 	defer func() {
 		if r := recover(); r != nil {
@@ -252,8 +266,45 @@ func moduleOfURL(url string) string {
 	return ""
 }
 
+// ---- crash journal ---------------------------------------------------------------------------------------------
+// A Rust panic inside the owasm VM aborts the whole process (it cannot be recovered in Go), so a case is written to a
+// journal file before it is executed; a worker that dies leaves the file behind and the driver reports it as the replay
+// (stage option crash_is_violation, as for C19).
+
+const sigProcessDied = "C02/node-process-died"
+
+func journal(c advCase) string {
+	if os.Getenv("VERIF_C02ADV_NOJOURNAL") != "" {
+		return ""
+	}
+	d := os.Getenv("VERIF_REPLAY_OUT")
+	if d == "" {
+		d = "/verif/replays"
+	}
+	shard := os.Getenv("VERIF_SHARD")
+	if shard == "" {
+		shard = "0"
+	}
+	p := filepath.Join(d, "C02", "journal-"+shard+".json")
+	cj, err := json.Marshal(c)
+	if err != nil {
+		return ""
+	}
+	wrap := map[string]any{"property": "C02", "test": "TestC02Adversarial", "signature": sigProcessDied,
+		"violation": "the node process died (abort / fatal error, not a recoverable panic) while executing a block of this history", "case": json.RawMessage(cj)}
+	b, _ := json.MarshalIndent(wrap, "", " ")
+	_ = os.MkdirAll(filepath.Dir(p), 0o755)
+	if os.WriteFile(p, b, 0o644) != nil {
+		return ""
+	}
+	return p
+}
+
 func runAdv(c advCase) *pbt.Verdict {
 	v := &pbt.Verdict{}
+	if jp := journal(c); jp != "" {
+		defer os.Remove(jp)
+	}
 	if c.NVals < 2 || c.NVals > 4 || len(c.Cfg) < nCfg {
 		v.Failf("harness", "malformed case")
 		return v
@@ -304,7 +355,7 @@ func runAdv(c advCase) *pbt.Verdict {
 				continue
 			}
 			mt := msgTypes[t.T]
-			tmpl := w.template(t.T, t)
+			tmpl := w.safeTemplate(t.T, t)
 			if len(tmpl) == 0 {
 				v.Count("inapplicable/"+shortName(mt.url), 1)
 				continue
@@ -435,11 +486,15 @@ func runAdv(c advCase) *pbt.Verdict {
 				continue
 			}
 			switch {
+			case m.wrong && ok:
+				v.Count("wrong_signer_accepted/"+name, 1) // (never expected: the ante handler verifies the signature)
+			case m.wrong:
+				v.Count("wrong_signer_refused", 1)
 			case ok && !m.mutated:
 				v.Count("tmpl_ok/"+name, 1)
-			case !ok && !m.mutated && !m.wrong && m.fallback:
+			case !ok && !m.mutated && m.fallback:
 				v.Count("tmpl_no_target/"+name, 1)
-			case !ok && !m.mutated && !m.wrong:
+			case !ok && !m.mutated:
 				v.Count("tmpl_fail/"+name, 1)
 				if os.Getenv("VERIF_C02ADV_DEBUG") != "" {
 					fmt.Printf("TMPL-FAIL %s: %s\n", name, tr.Log)
@@ -548,7 +603,15 @@ const (
 	// oracle SamplingTryCount has no upper bound in Params.Validate; MsgRequestData repeats the validator sampling that
 	// many times without charging gas for it, so a large value makes FinalizeBlock run for hours to forever
 	sigSamplingHang = "C02/sampling-try-count-hang"
+	// oracle MaxCalldataSize / MaxReportDataSize have no upper bound in Params.Validate; the larger of the two is the "span
+	// size" the owasm VM allocates (Vec::with_capacity) whenever a script reads its calldata or a report: a value >= 2^63
+	// (or beyond the machine's memory) is a Rust panic / allocation failure across the FFI boundary, which ABORTS the node
+	// process (SIGABRT) inside a MsgRequestData or inside the oracle end blocker. Not recoverable: the stage can only
+	// journal the case; the region is entered only when VERIF_C02ADV_ALLOW_ABORT is set or the finding is not avoided.
+	sigSpanAbort = "C02/owasm-span-size-abort"
 )
+
+const spanSizeLimit = 1 << 31
 
 func avoided(sig string) bool { return avoid[sig] || pbt.IsExcluded("C02", sig) }
 
@@ -569,6 +632,9 @@ func maxIntBits(m any) int {
 // inAvoidedRegion: the (mutated) authority-only message would take the chain into the region of a reported finding.
 func (w *world) inAvoidedRegion(m sdk.Msg) bool {
 	if mm, ok := m.(*oracletypes.MsgUpdateParams); ok && avoided(sigSamplingHang) && mm.Params.SamplingTryCount > 1000 && int64(mm.Params.SamplingTryCount) > 0 {
+		return true
+	}
+	if mm, ok := m.(*oracletypes.MsgUpdateParams); ok && avoided(sigSpanAbort) && (mm.Params.MaxCalldataSize > spanSizeLimit || mm.Params.MaxReportDataSize > spanSizeLimit) {
 		return true
 	}
 	if avoided(sigFeeOverflow) {
